@@ -10,7 +10,7 @@ import units
 RDIR = os.path.join(units.VERIF, 'replayer')
 BIN = os.path.join(RDIR, 'target', 'debug', 'replayer')
 FAMILY = {'C01': ['byte'], 'C02': ['byte'], 'C06': ['byte'], 'C07': ['byte'], 'C09': ['byte', 'sub'],
-          'C05': ['bytemem', 'submem'], 'C14': ['byte', 'sub'], 'C18': ['sub']}
+          'C05': ['bytemem', 'submem'], 'C14': ['byte', 'sub'], 'C18': ['sub'], 'C17': ['alloc']}
 _built = False
 
 
